@@ -4,6 +4,7 @@ import (
 	"go/ast"
 	"go/token"
 	"go/types"
+	"strings"
 
 	"dstverif/load"
 )
@@ -27,7 +28,10 @@ func ExtractFragger(c *Ctx) (*Sibling, error) {
 	for _, tn := range s.Order {
 		cs := s.Cases[tn]
 		x := &fragX{c: c, n: cs.NObj, recv: recv}
+		c.ComputeSubst(cs.Clause.Body, nil)
+		c.ComputeCondLocals(cs.Clause.Body)
 		x.stmts(cs.Clause.Body, gctx{})
+		c.Subst = nil
 		cs.Events = x.evs
 	}
 	return s, nil
@@ -85,6 +89,34 @@ func (x *fragX) stmt(s ast.Stmt, g gctx) {
 			}
 		}
 		x.other(s, g)
+	case *ast.SwitchStmt:
+		// tagless switch: an if / else-if chain
+		if s.Tag != nil || s.Init != nil {
+			x.other(s, g)
+			return
+		}
+		prev := g
+		for _, cl := range s.Body.List {
+			cc := cl.(*ast.CaseClause)
+			if cc.List == nil {
+				continue
+			}
+			var conds []string
+			for _, e := range cc.List {
+				conds = append(conds, x.c.ExprStr(e))
+			}
+			cond := strings.Join(conds, " || ")
+			if len(conds) > 1 {
+				cond = "(" + cond + ")"
+			}
+			x.stmts(cc.Body, prev.with(cond, false))
+			prev = prev.with(cond, true)
+		}
+		for _, cl := range s.Body.List {
+			if cc := cl.(*ast.CaseClause); cc.List == nil {
+				x.stmts(cc.Body, prev)
+			}
+		}
 	case *ast.BlockStmt:
 		x.stmts(s.List, g)
 	case *ast.EmptyStmt:
@@ -172,7 +204,7 @@ func (x *fragX) call(call *ast.CallExpr, g gctx, loopVar types.Object, loopSrc s
 		x.emit(Event{Kind: KDec, Name: name, Expr: x.posArg(call.Args[2])}, g, call.Pos())
 		return true
 	case isM("addTokenFragment") && len(call.Args) == 3 && x.isN(call.Args[0]):
-		x.emit(Event{Kind: KTok, Token: c.ExprStr(call.Args[1]), Field: x.posArg(call.Args[2]), Reads: c.Reads(call.Args[1], x.n)}, g, call.Pos())
+		x.emit(Event{Kind: KTok, Token: c.TokenStr(call.Args[1]), Field: x.posArg(call.Args[2]), Reads: c.Reads(call.Args[1], x.n)}, g, call.Pos())
 		return true
 	case isM("addStringFragment") && len(call.Args) == 3 && x.isN(call.Args[0]):
 		ev := Event{Kind: KStr, Field: x.posArg(call.Args[2])}
